@@ -161,10 +161,17 @@ def run_kani(repo, verif, kcfg, harnesses, tier):
         for h in harnesses:
             short = h["name"]
             pr = None
+            # exact name first, then a `::`-bounded suffix (never a bare suffix: `async_fleet::m::h` ends with `fleet::m::h`)
             for k, v in parsed.items():
-                if k == short or k.endswith("::" + short) or k.endswith(short):
+                if k == short:
                     pr = v
                     break
+            if pr is None:
+                cands = [v for k, v in parsed.items() if k.endswith("::" + short)]
+                if len(cands) == 1:
+                    pr = cands[0]
+                elif len(cands) > 1:
+                    res["undecided"].append("harness name %s is ambiguous in Kani's output" % short)
             hr = {"name": short, "props": h["props"], "bounded": h.get("bounded"),
                   "status": pr["status"] if pr else "missing", "checks": pr["checks"] if pr else None,
                   "time_s": pr["time_s"] if pr else None, "fn": h.get("fn")}
